@@ -1,87 +1,95 @@
 (* C18 -- type expressions print canonically in both cast positions.
 
-   Spec:   Expr/TypeSpec.v  (ty / arg, canon_ty, shown = \' esc (esc (canon_ty t)) \', print_ty, wf_ty, follow_ok,
-                             code_ok = the conjunction of the four restrictions F1..F4 under which TODAY's code is right)
+   Spec:   Expr/TypeSpec.v  (ty / arg, canon_ty, shown = \' esc (esc (canon_ty t)) \', print_ty, wf_ty, follow_ok)
    Model:  Expr/TypeModel.v (parseDataType + parameter fragment of parseExpression, parseCast `AS` form,
                              parseCastOperator, FormatDataType + helpers, the type line of explainCastExprWithAlias)
    Proofs: Expr/TypeProof.v
    Tie:    /verif/harness/cmd/typedump (real parser + Explain) vs /verif/driver/types (extracted model and spec)
            on /verif/checks/gen_type_cases.py.
 
-   FULL STATEMENT of the property over the model (for every wf_ty t, without code_ok):
-     forall t, wf_ty t = true ->
-       (forall fuel vas rest, fuel_ty t <= fuel ->
-          cast_as_text fuel ((T_AS, vas) :: print_ty t ++ t_rparen :: rest) = Ok (shown t, rest)) /\
-       (forall fuel vcc rest, fuel_ty t <= fuel -> follow_ok rest = true ->
-          cast_op_text fuel ((T_COLONCOLON, vcc) :: print_ty t ++ rest) = Ok (shown t, rest))
-   It is REFUTED for today's code (C18_refuted, witnesses C18_refuted_F1..F4); what is proved is the statement
-   with the extra hypothesis code_ok t = true (C18_partial, C18_driver_partial): every nesting depth, every
-   argument count, every constructor of the property, every separator spelling (erased tokens). *)
+   The property holds at full strength over wf_ty: every nesting depth, every argument count, every constructor
+   of the property (and every other name isDataTypeName knows except INT / JSON / OBJECT), every byte string as a
+   string argument or Enum value, every separator spelling (erased tokens).  The four former counterexamples
+   (findings F1..F4, fixed in /repo by 32c2210d9 1efc0f566 42e55a7bf 85b302a0b) are Examples below.
+   wf_ty keeps one restriction that the code really needs (TypeSpec.elem_name_ok): a tuple element NAME that
+   isDataTypeName knows must be followed by a type whose first name isDataTypeName also knows;
+   `Tuple(date LineString)` is still a parse error (C18_residual). *)
 From Coq Require Import List NArith Bool Strings.String.
 From DC Require Import Base.Item Gen.TokenTable Expr.TypeBase Expr.TypeSpec Expr.TypeModel Expr.TypeProof.
 Import ListNotations.
 
-Theorem C18_partial :
-  forall t, wf_ty t = true -> code_ok t = true ->
+Theorem C18 :
+  forall t, wf_ty t = true ->
   (forall fuel vas rest, (fuel_ty t <= fuel)%nat ->
      cast_as_text fuel ((T_AS, vas) :: print_ty t ++ t_rparen :: rest) = Ok (shown t, rest)) /\
   (forall fuel vcc rest, (fuel_ty t <= fuel)%nat -> follow_ok rest = true ->
      cast_op_text fuel ((T_COLONCOLON, vcc) :: print_ty t ++ rest) = Ok (shown t, rest)).
-Proof. exact C18_casts_partial. Qed.
-Print Assumptions C18_partial.
+Proof. exact C18_casts. Qed.
+Print Assumptions C18.
 
 (* over lexer items: whitespace, comments and positions are what [erase] forgets *)
-Theorem C18_items_partial :
-  forall t, wf_ty t = true -> code_ok t = true ->
+Theorem C18_items :
+  forall t, wf_ty t = true ->
   forall fuel (its_as its_op : list item) vas vcc rest_as rest_op,
   (fuel_ty t <= fuel)%nat -> follow_ok rest_op = true ->
   erase its_as = (T_AS, vas) :: print_ty t ++ t_rparen :: rest_as ->
   erase its_op = (T_COLONCOLON, vcc) :: print_ty t ++ rest_op ->
   cast_as_text fuel (erase its_as) = Ok (shown t, rest_as) /\
   cast_op_text fuel (erase its_op) = Ok (shown t, rest_op).
-Proof. exact TypeProof.C18_items_partial. Qed.
-Print Assumptions C18_items_partial.
+Proof. exact TypeProof.C18_items. Qed.
+Print Assumptions C18_items.
 
 (* the functions the correspondence driver runs, with their own fuel and input checks *)
-Theorem C18_driver_partial :
-  forall t, wf_ty t = true -> code_ok t = true ->
+Theorem C18_driver :
+  forall t, wf_ty t = true ->
   forall toks, drop_eof (strip_trivia toks) = print_ty t ->
   run_cast_as toks = Ok (shown t) /\ run_cast_op toks = Ok (shown t).
-Proof. exact C18_run_partial. Qed.
-Print Assumptions C18_driver_partial.
+Proof. exact C18_run. Qed.
+Print Assumptions C18_driver.
 
 (* the parser returns the tree and the printer prints the canonical text (the two halves) *)
 Theorem C18_parse_print :
   forall t fuel rest,
-  wf_ty t = true -> code_ok t = true -> follow_ok rest = true -> (fuel_ty t <= fuel)%nat ->
+  wf_ty t = true -> follow_ok rest = true -> (fuel_ty t <= fuel)%nat ->
   parse_dt fuel (print_ty t ++ rest) = Ok (Some (expect_dt t), rest) /\
   fmt_dt (expect_dt t) = esc (esc (canon_ty t)).
 Proof. exact parse_and_print. Qed.
 Print Assumptions C18_parse_print.
 
-(* Go's escapeStringLiteral is the one-level escape applied twice: the literal layer of the spec *)
+(* Go's escapeStringLiteral is the one-level escape applied twice, escapeStringForTypeParam three times *)
 Theorem C18_literal_layer : forall s, escape_string_literal s = esc (esc s).
 Proof. exact escape_string_literal_is_esc2. Qed.
 Print Assumptions C18_literal_layer.
 
-(* the unrestricted statement fails for today's code *)
-Theorem C18_refuted :
-  ~ (forall t, wf_ty t = true ->
-       run_cast_as (print_ty t ++ [eof_tok]) = Ok (shown t) /\ run_cast_op (print_ty t ++ [eof_tok]) = Ok (shown t)).
-Proof. exact C18_full_refuted. Qed.
-Print Assumptions C18_refuted.
+Theorem C18_type_param_layer : forall s, escape_type_param s = esc (esc (esc s)).
+Proof. exact escape_type_param_esc3. Qed.
+Print Assumptions C18_type_param_layer.
 
-Theorem C18_refuted_witnesses : refutes wit_F1 /\ refutes wit_F2 /\ refutes wit_F3 /\ refutes wit_F4.
-Proof. exact refuted_witnesses. Qed.
-Print Assumptions C18_refuted_witnesses.
+(* the former counterexamples: DateTime('it's'), Enum8('it's' = 1), Tuple(LineString, String), Tuple(date Array(Int32)) *)
+Example C18_former_findings_fixed :
+  shows wit_F1 (B "\'DateTime(\\\'it\\\\\\\'s\\\')\'"%string) /\
+  shows wit_F2 (B "\'Enum8(\\\'it\\\\\\\'s\\\' = 1)\'"%string) /\
+  shows wit_F3 (B "\'Tuple(LineString, String)\'"%string) /\
+  shows wit_F4 (B "\'Tuple(date Array(Int32))\'"%string).
+Proof. exact former_findings_fixed. Qed.
+Print Assumptions C18_former_findings_fixed.
 
-(* the hypotheses are satisfiable by a non-trivial object: depth 5, named tuple, Enum with a backslash and a
-   negative value, DateTime64 with a time zone, Decimal(p, s) *)
+(* the residual restriction of wf_ty is needed: Tuple(date LineString) is not wf and is a parse error in both positions *)
+Example C18_residual :
+  wf_ty residual_ty = false /\
+  run_cast_as (print_ty residual_ty ++ [eof_tok]) = ParseErr /\
+  run_cast_op (print_ty residual_ty ++ [eof_tok]) = ParseErr.
+Proof. exact residual_named_elem. Qed.
+Print Assumptions C18_residual.
+
+(* the hypotheses are satisfiable by a non-trivial object: depth 6, named tuple with an element name that is a
+   type name before the keyword Array, an unknown plain type name inside a Tuple, Enum values with a backslash,
+   a quote and a negative number, DateTime64 with a time zone, Decimal(p, s) *)
 Example C18_example :
-  wf_ty example_ty = true /\ code_ok example_ty = true /\
+  wf_ty example_ty = true /\
   canon_ty example_ty =
-    B "Map(String, Array(Tuple(a Nullable(DateTime64(3, 'UTC')), b Enum8('x\\y' = -1, 'z' = 2), Decimal(10, 2))))"%string /\
+    B "Map(String, Array(Tuple(a Nullable(DateTime64(3, 'UTC')), date Array(Enum8('x\\y' = -1, 'it\'s' = 2)), LineString, Decimal(10, 2))))"%string /\
   shown example_ty =
-    B "\'Map(String, Array(Tuple(a Nullable(DateTime64(3, \\\'UTC\\\')), b Enum8(\\\'x\\\\\\\\y\\\' = -1, \\\'z\\\' = 2), Decimal(10, 2))))\'"%string.
+    B "\'Map(String, Array(Tuple(a Nullable(DateTime64(3, \\\'UTC\\\')), date Array(Enum8(\\\'x\\\\\\\\y\\\' = -1, \\\'it\\\\\\\'s\\\' = 2)), LineString, Decimal(10, 2))))\'"%string.
 Proof. exact example_ok. Qed.
 Print Assumptions C18_example.
